@@ -209,7 +209,7 @@ theorem Sub.of_fields {s s' : State} (hconns : s'.conns = s.conns)
     (hch : ∀ r p, s'.chan r = .full p → s.chan r = .full p)
     (hco : ∀ r chk c, s'.co r = some chk → chk.conn = some c → ∃ chk0, s.co r = some chk0 ∧ chk0.conn = some c)
     (hh : ∀ r p, s'.held r = some p → s.held r = some p)
-    (ht : ∀ x, x ∈ s'.tasks → x ∈ s.tasks)
+    (ht : ∀ i c t hp, (i, Task.whenReady c t hp) ∈ s'.tasks → (i, Task.whenReady c t hp) ∈ s.tasks)
     (hi : ∀ x t, idleCount s' x t ≤ idleCount s x t) : Sub s' s := by
   refine ⟨fun c h => by unfold NS canShare at *; rw [← hconns]; exact h, ?_, hi⟩
   intro c l hl
@@ -217,13 +217,13 @@ theorem Sub.of_fields {s s' : State} (hconns : s'.conns = s.conns)
   | chan r => obtain ⟨p, h1, h2⟩ := hl; exact ⟨p, hch r p h1, h2⟩
   | co r => obtain ⟨chk, h1, h2⟩ := hl; exact hco r chk c h1 h2
   | held r => obtain ⟨p, h1, h2⟩ := hl; exact ⟨p, hh r p h1, h2⟩
-  | task i => obtain ⟨t, hp, h1⟩ := hl; exact ⟨t, hp, ht _ h1⟩
+  | task i => obtain ⟨t, hp, h1⟩ := hl; exact ⟨t, hp, ht i c t hp h1⟩
 
 /-- only fields that carry no handles changed -/
 theorem Sub.of_eq {s s' : State} (hconns : s'.conns = s.conns) (hch : s'.chan = s.chan) (hco : s'.co = s.co)
     (hh : s'.held = s.held) (ht : s'.tasks = s.tasks) (hi : s'.idle = s.idle) : Sub s' s :=
   Sub.of_fields hconns (fun r p h => by rw [← hch]; exact h) (fun r chk c h hc => ⟨chk, by rw [← hco]; exact h, hc⟩)
-    (fun r p h => by rw [← hh]; exact h) (fun x h => by rw [← ht]; exact h)
+    (fun r p h => by rw [← hh]; exact h) (fun i c t hp h => by rw [← ht]; exact h)
     (fun x t => by unfold idleCount; rw [hi]; exact Nat.le_refl _)
 
 theorem idleCount_congr {s s' : State} (hi : s'.idle = s.idle) (x : ConnId) (t : Token) : idleCount s' x t = idleCount s x t := by
@@ -324,5 +324,1031 @@ theorem AddIdle.cons {s s' : State} (t : Token) (c : ConnId) (a : Nat) (hconns :
   · simp only [upd, e, if_false]
     have : ¬ (x = c ∧ t' = t) := fun h => e h.2
     simp [this]
+
+end Hd.Pool
+
+namespace Hd.Pool
+
+theorem Linear.nowhere_of_removed {s s' : State} (h : Linear s) (hs : Sub s' s) {c : ConnId} {l : Loc}
+    (hns : NS s c) (hat : At s c l) (hrem : ¬ At s' c l) : Nowhere s' c := by
+  refine ⟨fun t => ?_, fun l' hl' => ?_⟩
+  · cases hc : idleCount s' c t with
+    | zero => rfl
+    | succ n =>
+      have := hs.idle c t
+      exact absurd hat (h.cross c hns ⟨t, by omega⟩ l)
+  · have := h.point c hns l' l (hs.loc c l' hl') hat
+    subst this
+    exact hrem hl'
+
+/-- pre-condition for putting handle `c` somewhere -/
+def Free (s : State) (c : ConnId) : Prop := NS s c → Nowhere s c
+
+theorem Free.of_share {s : State} {c : ConnId} (h : canShare s c = true) : Free s c := by
+  intro hn; unfold NS at hn; rw [h] at hn; cases hn
+
+theorem Free.trans {s s' : State} {A : ConnId → Prop} {c : ConnId} (h : Free s c) (hc : Conserve s' s A) (hx : ¬ A c)
+    (hns : NS s' c → NS s c) : Free s' c := fun hn => (h (hns hn)).conserve hc hx
+
+/-! ### primitives -/
+
+theorem spawn_linear {s : State} (h : Linear s) (t : Task)
+    (ht : ∀ c tk hp, t = .whenReady c tk hp → Free s c) :
+    Linear (spawn s t) ∧ Conserve (spawn s t) s (fun x => ∃ tk hp, t = .whenReady x tk hp) ∧ (spawn s t).conns = s.conns := by
+  unfold spawn
+  cases t with
+  | whenReady c tk hp =>
+    have ha : AddAt { s with tasks := s.tasks ++ [(s.nextTask, .whenReady c tk hp)], runq := s.runq ++ [s.nextTask], nextTask := s.nextTask + 1 } s c (.task s.nextTask) :=
+      AddAt.task s.nextTask c tk hp rfl rfl rfl rfl rfl rfl
+    exact ⟨h.addAt ha (ht c tk hp rfl), ha.conserve.weaken (fun x hx => ⟨tk, hp, by rw [hx]⟩), rfl⟩
+  | delayed r =>
+    have hs : Sub { s with tasks := s.tasks ++ [(s.nextTask, .delayed r)], runq := s.runq ++ [s.nextTask], nextTask := s.nextTask + 1 } s := by
+      refine Sub.of_fields rfl (fun _ _ h => h) (fun _ chk _ h hc => ⟨chk, h, hc⟩) (fun _ _ h => h) ?_ (fun _ _ => Nat.le_refl _)
+      intro i c t hp hx
+      simp only [List.mem_append, List.mem_singleton, Prod.mk.injEq] at hx
+      rcases hx with hx | ⟨_, hx⟩
+      · exact hx
+      · cases hx
+    exact ⟨h.sub hs, hs.conserve.weaken (fun _ hf => hf.elim), rfl⟩
+
+end Hd.Pool
+
+namespace Hd.Pool
+
+theorem dropPooled_linear {s : State} (h : Linear s) (p : Pooled) (hf : Free s p.conn) :
+    Linear (dropPooled s p) ∧ Conserve (dropPooled s p) s (· = p.conn) ∧ (dropPooled s p).conns = s.conns := by
+  unfold dropPooled
+  split
+  · exact ⟨h, (Conserve.refl s).weaken (fun _ hf => hf.elim), rfl⟩
+  · obtain ⟨a, b, c⟩ := spawn_linear h (.whenReady p.conn p.token p.hasPool) (fun c tk hp e => by cases e; exact hf)
+    exact ⟨a, b.weaken (fun x ⟨tk, hp, e⟩ => by cases e; rfl), c⟩
+
+theorem canShare_congr {s s' : State} (h : s'.conns = s.conns) (c : ConnId) : canShare s' c = canShare s c := by
+  unfold canShare; rw [h]
+
+theorem Free.congr {s s' : State} {c : ConnId} (h : Free s c) (hc : s'.conns = s.conns) (hs : Sub s' s) : Free s' c :=
+  fun hn => (h (hn.congr hc)).sub hs
+
+theorem pushLoop_linear (token : Token) (c : ConnId) : ∀ (q : List ReqId) (s : State), Linear s → Free s c →
+    Linear (pushLoop s token c q).1 ∧ Conserve (pushLoop s token c q).1 s (· = c) ∧ (pushLoop s token c q).1.conns = s.conns ∧
+      ((pushLoop s token c q).2 = false → NS s c → Sub (pushLoop s token c q).1 s)
+  | [], s, h, _ => by
+    simp only [pushLoop]
+    have hs : Sub { s with waiting := upd s.waiting token [] } s := Sub.of_eq rfl rfl rfl rfl rfl rfl
+    exact ⟨h.sub hs, hs.conserve.weaken (fun _ hf => hf.elim), by first | rfl | trivial, fun _ _ => hs⟩
+  | r :: rest, s, h, hf => by
+    simp only [pushLoop]
+    split
+    · rename_i hemp
+      split
+      · rename_i hshare
+        have ha : AddAt { s with chan := upd s.chan r (.full ⟨c, 0, true⟩) } s c (.chan r) :=
+          AddAt.chan r ⟨c, 0, true⟩ rfl rfl rfl rfl rfl rfl
+        have h1 := h.addAt ha hf
+        have hf1 : Free { s with chan := upd s.chan r (.full ⟨c, 0, true⟩) } c := Free.of_share (by exact hshare)
+        obtain ⟨a, b, d, _⟩ := pushLoop_linear token c rest _ h1 hf1
+        refine ⟨a, ?_, d, ?_⟩
+        · exact (b.trans ha.conserve).weaken (fun x hx => hx.elim id id)
+        · intro _ hns; unfold NS at hns; rw [hshare] at hns; cases hns
+      · have ha : AddAt { s with chan := upd s.chan r (.full ⟨c, token, true⟩) } s c (.chan r) :=
+          AddAt.chan r ⟨c, token, true⟩ rfl rfl rfl rfl rfl rfl
+        have h1 := h.addAt ha hf
+        have hs : Sub { s with chan := upd s.chan r (.full ⟨c, token, true⟩), waiting := upd s.waiting token rest }
+            { s with chan := upd s.chan r (.full ⟨c, token, true⟩) } := Sub.of_eq rfl rfl rfl rfl rfl rfl
+        refine ⟨h1.sub hs, ?_, by first | rfl | trivial, fun hfalse _ => by cases hfalse⟩
+        exact (hs.conserve.trans ha.conserve).weaken (fun x hx => hx.elim (fun f => f.elim) id)
+    · exact pushLoop_linear token c rest s h hf
+
+theorem clearMarker_sub (s : State) (t : Token) (c : ConnId) : Sub (clearMarker s t c) s ∧ (clearMarker s t c).conns = s.conns := by
+  unfold clearMarker; split
+  · exact ⟨Sub.of_eq rfl rfl rfl rfl rfl rfl, rfl⟩
+  · exact ⟨Sub.refl s, rfl⟩
+
+theorem push_linear {s : State} (h : Linear s) (token : Token) (c : ConnId) (hf : Free s c) :
+    Linear (push s token c) ∧ Conserve (push s token c) s (· = c) ∧ (push s token c).conns = s.conns := by
+  unfold push
+  obtain ⟨hs0, hc0⟩ := clearMarker_sub s token c
+  have h0 := h.sub hs0
+  have hf0 : Free (clearMarker s token c) c := hf.congr hc0 hs0
+  obtain ⟨h1, b1, c1, sub1⟩ := pushLoop_linear token c ((clearMarker s token c).waiting token) _ h0 hf0
+  simp only []
+  generalize pushLoop (clearMarker s token c) token c ((clearMarker s token c).waiting token) = pl at h1 b1 c1 sub1
+  obtain ⟨s1, delivered⟩ := pl
+  simp only [] at h1 b1 c1 sub1 ⊢
+  have b01 : Conserve s1 s (· = c) := (b1.trans hs0.conserve).weaken (fun x hx => hx.elim id (fun f => f.elim))
+  have c01 : s1.conns = s.conns := c1.trans hc0
+  split
+  · exact ⟨h1, b01, c01⟩
+  · split
+    · -- nobody took it: it goes to the idle list. It was delivered to nobody, so it is still free.
+      rename_i hdel _
+      have hdel' : delivered = false := by simpa using hdel
+      have hf1 : Free s1 c := by
+        intro hn
+        have hn0 : NS (clearMarker s token c) c := hn.congr c1
+        exact (hf0 hn0).sub (sub1 hdel' hn0)
+      have ha : AddIdle { s1 with idle := upd s1.idle token ((c, s1.now) :: s1.idle token) } s1 c token :=
+        AddIdle.cons token c s1.now rfl rfl rfl rfl rfl rfl
+      exact ⟨h1.addIdle ha hf1, (ha.conserve.trans b01).weaken (fun x hx => hx.elim id id), c01⟩
+    · split
+      · exact ⟨h1, b01, c01⟩
+      · have hs : Sub { s1 with dropped := c :: s1.dropped } s1 := Sub.of_eq rfl rfl rfl rfl rfl rfl
+        exact ⟨h1.sub hs, (hs.conserve.trans b01).weaken (fun x hx => hx.elim (fun f => f.elim) id), c01⟩
+
+end Hd.Pool
+
+namespace Hd.Pool
+
+theorem idlePop_count (s : State) : ∀ (l : List (ConnId × Nat)),
+    (∀ x, ((idlePop s l).2.1.map (·.1)).count x ≤ (l.map (·.1)).count x) ∧
+    (∀ c, (idlePop s l).1 = some c → ((idlePop s l).2.1.map (·.1)).count c + 1 ≤ (l.map (·.1)).count c)
+  | [] => by simp [idlePop]
+  | (c0, a) :: rest => by
+    simp only [idlePop]
+    split
+    · simp
+    · split
+      · refine ⟨fun x => ?_, fun c hc => ?_⟩
+        · simp only [List.map_cons, List.count_cons]; omega
+        · simp only [Option.some.injEq] at hc; subst hc
+          simp [List.count_cons]
+      · obtain ⟨h1, h2⟩ := idlePop_count s rest
+        generalize idlePop s rest = res at h1 h2 ⊢
+        obtain ⟨r, l, d⟩ := res
+        simp only [] at h1 h2 ⊢
+        refine ⟨fun x => ?_, fun c hc => ?_⟩
+        · have := h1 x
+          simp only [List.map_cons, List.count_cons]; omega
+        · have := h2 c hc
+          simp only [List.map_cons, List.count_cons]; omega
+
+/-- the idle list of `t` replaced by a list with no more copies of anything -/
+theorem Sub.setIdle {s : State} (t : Token) (l : List (ConnId × Nat))
+    (hl : ∀ x, (l.map (·.1)).count x ≤ ((s.idle t).map (·.1)).count x) :
+    Sub { s with idle := upd s.idle t l } s := by
+  refine Sub.of_fields rfl (fun _ _ h => h) (fun _ chk _ h hc => ⟨chk, h, hc⟩) (fun _ _ h => h) (fun _ _ _ _ h => h) ?_
+  intro x t'
+  unfold idleCount
+  by_cases e : t' = t
+  · subst e; simp only [upd_same]; exact hl x
+  · simp only [upd, e, if_false]; exact Nat.le_refl _
+
+theorem tokenOf_sub (s : State) (k : KeyId) : Sub (tokenOf s k).1 s ∧ (tokenOf s k).1.conns = s.conns ∧
+    (tokenOf s k).1.idle = s.idle ∧ (tokenOf s k).1.co = s.co := by
+  unfold tokenOf; split
+  · exact ⟨Sub.refl s, rfl, rfl, rfl⟩
+  · exact ⟨Sub.of_eq rfl rfl rfl rfl rfl rfl, rfl, rfl, rfl⟩
+
+theorem issueFound_linear {s : State} (h : Linear s) (r : ReqId) (k : KeyId) (mux : Bool) (t : Token) (c : ConnId)
+    (hr : s.co r = none) (hf : Free s c) : Linear (issueFound s r k mux t c) := by
+  unfold issueFound
+  have h1 : Linear (if canShare s c then { s with idle := upd s.idle t ((c, s.now) :: s.idle t) } else s) ∧
+      Free (if canShare s c then { s with idle := upd s.idle t ((c, s.now) :: s.idle t) } else s) c ∧
+      (if canShare s c then { s with idle := upd s.idle t ((c, s.now) :: s.idle t) } else s).co = s.co := by
+    split
+    · rename_i hs
+      have ha : AddIdle { s with idle := upd s.idle t ((c, s.now) :: s.idle t) } s c t := AddIdle.cons t c s.now rfl rfl rfl rfl rfl rfl
+      exact ⟨h.addIdle ha hf, Free.of_share (by exact hs), rfl⟩
+    · exact ⟨h, hf, rfl⟩
+  generalize (if canShare s c then { s with idle := upd s.idle t ((c, s.now) :: s.idle t) } else s) = s1 at h1
+  obtain ⟨h1, hf1, c1⟩ := h1
+  have hs2 : Sub { s1 with chan := upd s1.chan r .txGone } s1 := by
+    refine Sub.of_fields rfl ?_ (fun _ chk _ h hc => ⟨chk, h, hc⟩) (fun _ _ h => h) (fun _ _ _ _ h => h) (fun _ _ => Nat.le_refl _)
+    intro r' p hp
+    by_cases e : r' = r
+    · subst e; simp at hp
+    · simpa [upd, e] using hp
+  have h2 := h1.sub hs2
+  have hf2 : Free { s1 with chan := upd s1.chan r .txGone } c := hf1.congr rfl hs2
+  have ha : ∀ chk : Checkout, chk.conn = some c →
+      AddAt { s1 with chan := upd s1.chan r .txGone, co := upd s1.co r (some chk) }
+        { s1 with chan := upd s1.chan r .txGone } c (.co r) :=
+    fun chk hc => AddAt.co r chk c rfl rfl rfl hc rfl rfl rfl
+  exact h2.addAt (ha _ rfl) hf2
+
+theorem issueMissing_linear {s : State} (h : Linear s) (r : ReqId) (k : KeyId) (mux : Bool) (t : Token)
+    (hr : s.co r = none) : Linear (issueMissing s r k mux t) := by
+  unfold issueMissing
+  simp only []
+  have key : ∀ (chk : Checkout) (conn : List Token), chk.conn = none →
+      Sub { s with waiting := upd s.waiting t (s.waiting t ++ [r]), chan := upd s.chan r .empty,
+                   connecting := conn, co := upd s.co r (some chk) } s := by
+    intro chk conn hcn
+    refine Sub.of_fields rfl ?_ ?_ (fun _ _ h => h) (fun _ _ _ _ h => h) (fun _ _ => Nat.le_refl _)
+    · intro r' p hp
+      by_cases e : r' = r
+      · subst e; simp at hp
+      · simpa [upd, e] using hp
+    · intro r' chk' c' hc' hcc
+      by_cases e : r' = r
+      · subst e; simp only [upd_same, Option.some.injEq] at hc'; subst hc'; rw [hcn] at hcc; cases hcc
+      · exact ⟨chk', by simpa [upd, e] using hc', hcc⟩
+  split
+  · exact h.sub (key _ _ rfl)
+  · split <;> exact h.sub (key _ _ rfl)
+
+end Hd.Pool
+
+namespace Hd.Pool
+
+theorem noteDropped_sub (s : State) (l : List ConnId) : Sub (noteDropped s l) s := Sub.of_eq rfl rfl rfl rfl rfl rfl
+
+theorem issue_linear {s : State} (h : Linear s) (r : ReqId) (k : KeyId) (mux : Bool) (hr : s.co r = none) :
+    Linear (issue s r k mux) := by
+  unfold issue
+  obtain ⟨hs0, hc0, hi0, hco0⟩ := tokenOf_sub s k
+  have h0 := h.sub hs0
+  simp only []
+  generalize tokenOf s k = tk at hs0 hc0 hi0 hco0 h0
+  obtain ⟨s0, t⟩ := tk
+  simp only [] at hs0 hc0 hi0 hco0 h0 ⊢
+  obtain ⟨hcnt1, hcnt2⟩ := idlePop_count s0 (s0.idle t)
+  have hs1 : Sub { s0 with idle := upd s0.idle t (idlePop s0 (s0.idle t)).2.1 } s0 := Sub.setIdle t _ hcnt1
+  have hs2 : Sub (noteDropped { s0 with idle := upd s0.idle t (idlePop s0 (s0.idle t)).2.1 } (idlePop s0 (s0.idle t)).2.2) s0 :=
+    (noteDropped_sub _ _).trans hs1
+  have h2 := h0.sub hs2
+  have hr2 : (noteDropped { s0 with idle := upd s0.idle t (idlePop s0 (s0.idle t)).2.1 } (idlePop s0 (s0.idle t)).2.2).co r = none := by
+    show s0.co r = none; rw [hco0]; exact hr
+  cases hp : (idlePop s0 (s0.idle t)).1 with
+  | none => simp only []; exact issueMissing_linear h2 r k mux t hr2
+  | some c =>
+    simp only []
+    apply issueFound_linear h2 r k mux t c hr2
+    intro hn
+    have hn0 : NS s0 c := hn
+    have hpos : 0 < idleCount s0 c t := by
+      have := hcnt2 c hp
+      unfold idleCount; omega
+    obtain ⟨_, hone⟩ := h0.idle1 c hn0 t t hpos hpos
+    refine ⟨fun t' => ?_, fun l hl => ?_⟩
+    · show idleCount { s0 with idle := upd s0.idle t (idlePop s0 (s0.idle t)).2.1 } c t' = 0
+      unfold idleCount
+      by_cases e : t' = t
+      · subst e
+        simp only [upd_same]
+        have := hcnt2 c hp
+        unfold idleCount at hone
+        omega
+      · simp only [upd, e, if_false]
+        cases hc' : ((s0.idle t').map (·.1)).count c with
+        | zero => rfl
+        | succ n =>
+          have : 0 < idleCount s0 c t' := by unfold idleCount; omega
+          exact absurd (h0.idle1 c hn0 t' t this hpos).1 e
+    · exact h0.cross c hn0 ⟨t, hpos⟩ l (hs2.loc c l hl)
+
+/-- a non-full value put into a channel -/
+theorem Sub.setChan {s : State} (r : ReqId) (v : Chan) (hv : ∀ p, v ≠ .full p) : Sub { s with chan := upd s.chan r v } s := by
+  refine Sub.of_fields rfl ?_ (fun _ chk _ h hc => ⟨chk, h, hc⟩) (fun _ _ h => h) (fun _ _ _ _ h => h) (fun _ _ => Nat.le_refl _)
+  intro r' p hp
+  by_cases e : r' = r
+  · subst e; simp only [upd_same] at hp; exact absurd hp (hv p)
+  · simpa [upd, e] using hp
+
+theorem dropRx_linear {s : State} (h : Linear s) (r : ReqId) :
+    Linear (dropRx s r) ∧ Conserve (dropRx s r) s (fun _ => False) ∧ (dropRx s r).conns = s.conns := by
+  unfold dropRx
+  split
+  · rename_i p hp
+    have hs : Sub { s with chan := upd s.chan r .rxGone } s := Sub.setChan r .rxGone (fun _ e => by cases e)
+    have h1 := h.sub hs
+    have hf : Free { s with chan := upd s.chan r .rxGone } p.conn := by
+      intro hn
+      apply h.nowhere_of_removed hs (l := .chan r) hn ⟨p, hp, rfl⟩
+      rintro ⟨p', hp', _⟩
+      simp at hp'
+    obtain ⟨a, b, c⟩ := dropPooled_linear h1 p hf
+    refine ⟨a, ?_, c⟩
+    -- the handle that moved was located in `s` (in the channel)
+    intro x hx
+    rcases b x hx with hl | he
+    · exact Or.inl ((hs.conserve x hl).elim id (fun f => f.elim))
+    · subst he; exact Or.inl (Or.inr ⟨.chan r, p, hp, rfl⟩)
+  · have hs : Sub { s with chan := upd s.chan r .rxGone } s := Sub.setChan r .rxGone (fun _ e => by cases e)
+    exact ⟨h.sub hs, hs.conserve, rfl⟩
+  · exact ⟨h, Conserve.refl s, rfl⟩
+
+theorem dropSenders_sub : ∀ (l : List ReqId) (s : State), Sub (dropSenders s l) s ∧ (dropSenders s l).conns = s.conns
+  | [], s => ⟨Sub.refl s, rfl⟩
+  | r :: rest, s => by
+    simp only [dropSenders]
+    have h1 : Sub (match s.chan r with | .empty => { s with chan := upd s.chan r .txGone } | _ => s) s ∧
+        (match s.chan r with | .empty => { s with chan := upd s.chan r .txGone } | _ => s).conns = s.conns := by
+      split
+      · exact ⟨Sub.setChan r .txGone (fun _ e => by cases e), rfl⟩
+      · exact ⟨Sub.refl s, rfl⟩
+    obtain ⟨a, b⟩ := dropSenders_sub rest (match s.chan r with | .empty => { s with chan := upd s.chan r .txGone } | _ => s)
+    exact ⟨a.trans h1.1, b.trans h1.2⟩
+
+theorem cancelConnection_sub (s : State) (t : Token) : Sub (cancelConnection s t) s ∧ (cancelConnection s t).conns = s.conns := by
+  unfold cancelConnection
+  split
+  · simp only []
+    obtain ⟨a, b⟩ := dropSenders_sub (s.waiting t) { s with connecting := s.connecting.erase t }
+    have h0 : Sub { s with connecting := s.connecting.erase t } s := Sub.of_eq rfl rfl rfl rfl rfl rfl
+    generalize dropSenders { s with connecting := s.connecting.erase t } (s.waiting t) = s2 at a b
+    have h2 : Sub { s2 with waiting := upd s2.waiting t [] } s2 := Sub.of_eq rfl rfl rfl rfl rfl rfl
+    exact ⟨(h2.trans a).trans h0, b⟩
+  · exact ⟨Sub.refl s, rfl⟩
+
+theorem cancelIfOwner_sub (s : State) (c : Checkout) : Sub (cancelIfOwner s c) s ∧ (cancelIfOwner s c).conns = s.conns := by
+  unfold cancelIfOwner; split
+  · exact cancelConnection_sub s c.token
+  · exact ⟨Sub.refl s, rfl⟩
+
+end Hd.Pool
+
+namespace Hd.Pool
+
+/-- the checkout of `r` replaced by one that holds no handle -/
+theorem Sub.setCoNone {s : State} (r : ReqId) (chk : Checkout) (hc : chk.conn = none) :
+    Sub { s with co := upd s.co r (some chk) } s := by
+  refine Sub.of_fields rfl (fun _ _ h => h) ?_ (fun _ _ h => h) (fun _ _ _ _ h => h) (fun _ _ => Nat.le_refl _)
+  intro r' chk' c' hc' hcc
+  by_cases e : r' = r
+  · subst e; simp only [upd_same, Option.some.injEq] at hc'; subst hc'; rw [hc] at hcc; cases hcc
+  · exact ⟨chk', by simpa [upd, e] using hc', hcc⟩
+
+theorem takeConn_linear {s : State} (h : Linear s) (r : ReqId) (c : Checkout) (hco : s.co r = some c) :
+    Linear (takeConn s r c) ∧ Sub (takeConn s r c) s ∧ (∀ cid, c.conn = some cid → Free (takeConn s r c) cid) := by
+  have hs : Sub (takeConn s r c) s := Sub.setCoNone r _ rfl
+  refine ⟨h.sub hs, hs, ?_⟩
+  intro cid hcid hn
+  apply h.nowhere_of_removed hs (l := .co r) hn ⟨c, hco, hcid⟩
+  rintro ⟨chk, hchk, hcc⟩
+  simp [takeConn] at hchk
+  subst hchk
+  cases hcc
+
+theorem returnUnused_linear {s : State} (h : Linear s) (c : Checkout) (hf : ∀ cid, c.conn = some cid → Free s cid) :
+    Linear (returnUnused s c) ∧ Conserve (returnUnused s c) s (fun x => c.conn = some x) ∧ (returnUnused s c).conns = s.conns := by
+  unfold returnUnused
+  split
+  · rename_i cid hcid
+    split
+    · obtain ⟨a, b, d⟩ := push_linear h c.token cid (hf cid hcid)
+      exact ⟨a, b.weaken (fun x hx => by rw [hx]; exact hcid), d⟩
+    · split
+      · exact ⟨h, (Conserve.refl s).weaken (fun _ f => f.elim), rfl⟩
+      · have hs : Sub { s with dropped := cid :: s.dropped } s := Sub.of_eq rfl rfl rfl rfl rfl rfl
+        exact ⟨h.sub hs, hs.conserve.weaken (fun _ f => f.elim), rfl⟩
+  · exact ⟨h, (Conserve.refl s).weaken (fun _ f => f.elim), rfl⟩
+
+theorem dropCheckout_linear {s : State} (h : Linear s) (r : ReqId) :
+    Linear (dropCheckout s r) ∧ Conserve (dropCheckout s r) s (fun _ => False) ∧ (dropCheckout s r).conns = s.conns := by
+  unfold dropCheckout
+  cases hco : s.co r with
+  | none => exact ⟨h, Conserve.refl s, rfl⟩
+  | some c =>
+    simp only []
+    split
+    · exact ⟨h, Conserve.refl s, rfl⟩
+    · obtain ⟨h0, hs0, hf0⟩ := takeConn_linear h r c hco
+      have hc0 : (takeConn s r c).conns = s.conns := rfl
+      obtain ⟨h1, b1, c1⟩ := returnUnused_linear h0 c hf0
+      -- whatever `returnUnused` placed was located in `s` (in the checkout)
+      have b01 : Conserve (returnUnused (takeConn s r c) c) s (fun _ => False) := by
+        intro x hx
+        rcases b1 x hx with hl | he
+        · exact Or.inl ((hs0.conserve x hl).elim id (fun f => f.elim))
+        · exact Or.inl (Or.inr ⟨.co r, c, hco, he⟩)
+      generalize returnUnused (takeConn s r c) c = s1 at h1 b1 c1 b01
+      split
+      · obtain ⟨h2, b2, c2⟩ := spawn_linear h1 (.delayed r) (fun _ _ _ e => by cases e)
+        obtain ⟨h3, b3, c3⟩ := dropRx_linear h2 r
+        generalize dropRx (spawn s1 (.delayed r)) r = s3 at h3 b3 c3
+        have hs4 : ∀ chk : Checkout, chk.conn = none → Sub { s3 with co := upd s3.co r (some chk) } s3 :=
+          fun chk hc => Sub.setCoNone r chk hc
+        refine ⟨h3.sub (hs4 _ rfl), ?_, ?_⟩
+        · intro x hx
+          rcases (hs4 _ rfl).conserve x hx with hl | f
+          · rcases b3 x hl with hl | f
+            · rcases b2 x hl with hl | ⟨_, _, e⟩
+              · exact b01 x hl
+              · cases e
+            · exact f.elim
+          · exact f.elim
+        · show s3.conns = s.conns
+          rw [c3, c2, c1, hc0]
+      · obtain ⟨hs2, c2⟩ := cancelIfOwner_sub s1 c
+        have h2 := h1.sub hs2
+        obtain ⟨h3, b3, c3⟩ := dropRx_linear h2 r
+        generalize dropRx (cancelIfOwner s1 c) r = s3 at h3 b3 c3
+        have hs4 : ∀ chk : Checkout, chk.conn = none → Sub { s3 with co := upd s3.co r (some chk) } s3 :=
+          fun chk hc => Sub.setCoNone r chk hc
+        refine ⟨h3.sub (hs4 _ rfl), ?_, ?_⟩
+        · intro x hx
+          rcases (hs4 _ rfl).conserve x hx with hl | f
+          · rcases b3 x hl with hl | f
+            · rcases hs2.conserve x hl with hl | f
+              · exact b01 x hl
+              · exact f.elim
+            · exact f.elim
+          · exact f.elim
+        · show s3.conns = s.conns
+          rw [c3, c2, c1, hc0]
+
+end Hd.Pool
+
+namespace Hd.Pool
+
+/-- every located handle is a connection that exists -/
+def Live (s : State) : Prop := ∀ x, Located s x → (s.conns x).isSome = true
+
+theorem live_init (cfg : Config) : Live (init cfg) := by
+  rintro x (⟨t, ht⟩ | ⟨l, hl⟩)
+  · simp [idleCount, init] at ht
+  · cases l <;> simp [At, init] at hl
+
+theorem Live.conserve {s s' : State} {A : ConnId → Prop} (h : Live s) (hc : Conserve s' s A)
+    (hconns : ∀ x, (s.conns x).isSome = true → (s'.conns x).isSome = true)
+    (hA : ∀ x, A x → (s'.conns x).isSome = true) : Live s' := by
+  intro x hx
+  rcases hc x hx with hl | ha
+  · exact hconns x (h x hl)
+  · exact hA x ha
+
+theorem Live.conserve_eq {s s' : State} {A : ConnId → Prop} (h : Live s) (hc : Conserve s' s A)
+    (hconns : s'.conns = s.conns) (hA : ∀ x, A x → (s.conns x).isSome = true) : Live s' :=
+  h.conserve hc (fun x hx => by rw [hconns]; exact hx) (fun x hx => by rw [hconns]; exact hA x hx)
+
+/-- a connection id that does not exist yet is nowhere -/
+theorem Live.nowhere {s : State} (h : Live s) {x : ConnId} (hx : s.conns x = none) : Nowhere s x :=
+  nowhere_of_not_located (fun hl => by have := h x hl; rw [hx] at this; cases this)
+
+theorem newConn_sub (s : State) (c : Checkout) (alpn : Bool) (hfresh : s.conns s.nextConn = none) :
+    Sub (newConn s c alpn).1 s := by
+  unfold newConn
+  simp only []
+  refine ⟨?_, ?_, fun _ _ => Nat.le_refl _⟩
+  · intro x hx
+    by_cases e : x = s.nextConn
+    · subst e; unfold NS canShare; rw [hfresh]
+    · unfold NS canShare at hx ⊢
+      simpa [upd, e] using hx
+  · intro x l hl
+    cases l with
+    | chan r => exact hl
+    | co r => exact hl
+    | held r => exact hl
+    | task i => exact hl
+
+theorem newConn_conns (s : State) (c : Checkout) (alpn : Bool) :
+    (∀ x, (s.conns x).isSome = true → ((newConn s c alpn).1.conns x).isSome = true) ∧
+    ((newConn s c alpn).1.conns (newConn s c alpn).2).isSome = true ∧ (newConn s c alpn).2 = s.nextConn := by
+  unfold newConn
+  simp only []
+  refine ⟨?_, by simp, by first | rfl | trivial⟩
+  intro x hx
+  by_cases e : x = s.nextConn
+  · subst e; simp
+  · simpa [upd, e] using hx
+
+theorem registerConnected_linear {s : State} (h : Linear s) (c : Checkout) (cid : ConnId) (hf : Free s cid) :
+    Linear (registerConnected s c cid).1 ∧ Conserve (registerConnected s c cid).1 s (· = cid) ∧
+      (registerConnected s c cid).1.conns = s.conns ∧
+      (NS s cid → (registerConnected s c cid).1 = s) := by
+  unfold registerConnected
+  split
+  · rename_i hs
+    obtain ⟨a, b, d⟩ := push_linear h c.token cid hf
+    exact ⟨a, b, d, fun hn => by unfold NS at hn; rw [hs] at hn; cases hn⟩
+  · exact ⟨h, (Conserve.refl s).weaken (fun _ f => f.elim), rfl, fun _ => rfl⟩
+
+theorem setConn_sub (s : State) (c : ConnId) (f : Conn → Conn) (hf : ∀ k, (f k).kind = k.kind) :
+    Sub (setConn s c f) s ∧ (∀ x, (s.conns x).isSome = true → ((setConn s c f).conns x).isSome = true) := by
+  unfold setConn
+  split
+  · rename_i k hk
+    refine ⟨⟨?_, ?_, fun _ _ => Nat.le_refl _⟩, ?_⟩
+    · intro x hx
+      by_cases e : x = c
+      · subst e
+        unfold NS canShare at hx ⊢
+        simp only [upd_same] at hx
+        rw [hk]
+        simpa [hf k] using hx
+      · unfold NS canShare at hx ⊢
+        simpa [upd, e] using hx
+    · intro x l hl
+      cases l <;> exact hl
+    · intro x hx
+      by_cases e : x = c
+      · subst e; simp
+      · simpa [upd, e] using hx
+  · exact ⟨Sub.refl s, fun _ h => h⟩
+
+theorem removeTask_sub (s : State) (i : Nat) : Sub (removeTask s i) s := by
+  unfold removeTask
+  refine Sub.of_fields rfl (fun _ _ h => h) (fun _ chk _ h hc => ⟨chk, h, hc⟩) (fun _ _ h => h) ?_ (fun _ _ => Nat.le_refl _)
+  intro j c t hp hm
+  exact (List.mem_filter.mp hm).1
+
+end Hd.Pool
+
+namespace Hd.Pool
+
+/-- replacing the checkout of `r` by one that holds the same handle, or none -/
+theorem Sub.commit {s1 : State} {r : ReqId} {c c' : Checkout} (hco : s1.co r = some c)
+    (hc : ∀ cid, c'.conn = some cid → c.conn = some cid) : Sub { s1 with co := upd s1.co r (some c') } s1 := by
+  refine Sub.of_fields rfl (fun _ _ h => h) ?_ (fun _ _ h => h) (fun _ _ _ _ h => h) (fun _ _ => Nat.le_refl _)
+  intro r' chk x hchk hx
+  by_cases e : r' = r
+  · subst e; simp only [upd_same, Option.some.injEq] at hchk; subst hchk
+    exact ⟨c, hco, hc x hx⟩
+  · exact ⟨chk, by simpa [upd, e] using hchk, hx⟩
+
+structure LinInv (s : State) : Prop where
+  lin : Linear s
+  live : Live s
+
+theorem LinInv.sub {s s' : State} (h : LinInv s) (hs : Sub s' s)
+    (hconns : ∀ x, (s.conns x).isSome = true → (s'.conns x).isSome = true) : LinInv s' :=
+  ⟨h.lin.sub hs, h.live.conserve hs.conserve hconns (fun _ f => f.elim)⟩
+
+theorem LinInv.sub_eq {s s' : State} (h : LinInv s) (hs : Sub s' s) (hconns : s'.conns = s.conns) : LinInv s' :=
+  h.sub hs (fun x hx => by rw [hconns]; exact hx)
+
+/-- result of a poll, with the checkout written back: the handed-out connection is in nobody's hands -/
+structure PollOk (s : State) (r : ReqId) (S : State) (res : PollRes) : Prop where
+  inv : LinInv S
+  free : ∀ p, res = .got p → Free S p.conn ∧ (S.conns p.conn).isSome = true
+
+theorem dropRx_lininv {s : State} (h : LinInv s) (r : ReqId) : LinInv (dropRx s r) := by
+  obtain ⟨a, b, c⟩ := dropRx_linear h.lin r
+  exact ⟨a, h.live.conserve_eq b c (fun _ f => f.elim)⟩
+
+theorem pushLoop_co (token : Token) (c : ConnId) : ∀ (q : List ReqId) (s : State), (pushLoop s token c q).1.co = s.co
+  | [], s => by simp [pushLoop]
+  | r :: rest, s => by
+    simp only [pushLoop]
+    split
+    · split
+      · rw [pushLoop_co token c rest]
+      · rfl
+    · exact pushLoop_co token c rest s
+
+theorem push_co (s : State) (token : Token) (c : ConnId) : (push s token c).co = s.co := by
+  unfold push
+  simp only []
+  have h0 : (clearMarker s token c).co = s.co := clearMarker_co s token c
+  have h1 := pushLoop_co token c ((clearMarker s token c).waiting token) (clearMarker s token c)
+  generalize pushLoop (clearMarker s token c) token c ((clearMarker s token c).waiting token) = pl at h1
+  obtain ⟨s1, d⟩ := pl
+  simp only [] at h1 ⊢
+  split
+  · rw [h1, h0]
+  · split
+    · show s1.co = s.co; rw [h1, h0]
+    · split
+      · rw [h1, h0]
+      · show s1.co = s.co; rw [h1, h0]
+
+theorem pollCheckout_linear {s : State} (h : LinInv s) (ho : OriginInv s) (r : ReqId) (c : Checkout) (hco : s.co r = some c) :
+    PollOk s r { (pollCheckout s r c).1 with co := upd (pollCheckout s r c).1.co r (some (pollCheckout s r c).2.1) }
+      (pollCheckout s r c).2.2 := by
+  -- the waiter
+  have hw : LinInv (pollWaiter s r c).1 ∧ (pollWaiter s r c).1.co = s.co ∧ (pollWaiter s r c).2.1.conn = c.conn ∧
+      (pollWaiter s r c).2.1.inner = c.inner ∧
+      (∀ p, (pollWaiter s r c).2.2 = some (some p) → Free (pollWaiter s r c).1 p.conn ∧ ((pollWaiter s r c).1.conns p.conn).isSome = true) := by
+    have take : ∀ p, s.chan r = .full p →
+        LinInv { s with chan := upd s.chan r .rxGone } ∧ Free { s with chan := upd s.chan r .rxGone } p.conn ∧
+          (s.conns p.conn).isSome = true := by
+      intro p hp
+      have hs : Sub { s with chan := upd s.chan r .rxGone } s := Sub.setChan r .rxGone (fun _ e => by cases e)
+      refine ⟨h.sub_eq hs rfl, ?_, h.live p.conn (Or.inr ⟨.chan r, p, hp, rfl⟩)⟩
+      intro hn
+      apply h.lin.nowhere_of_removed hs (l := .chan r) hn ⟨p, hp, rfl⟩
+      rintro ⟨p', hp', _⟩
+      simp at hp'
+    unfold pollWaiter
+    cases c.waiter with
+    | idle =>
+      simp only []
+      split
+      · rename_i p hp
+        obtain ⟨a, b, d⟩ := take p hp
+        exact ⟨a, rfl, rfl, rfl, fun p' hp' => by simp only [Option.some.injEq] at hp'; subst hp'; exact ⟨b, d⟩⟩
+      · exact ⟨h, rfl, rfl, rfl, fun p hp => by simp at hp⟩
+      · exact ⟨h, rfl, rfl, rfl, fun p hp => by simp at hp⟩
+    | connecting =>
+      simp only []
+      split
+      · rename_i p hp
+        obtain ⟨a, b, d⟩ := take p hp
+        exact ⟨a, rfl, rfl, rfl, fun p' hp' => by simp only [Option.some.injEq] at hp'; subst hp'; exact ⟨b, d⟩⟩
+      · exact ⟨h, rfl, rfl, rfl, fun p hp => by simp at hp⟩
+      · exact ⟨h, rfl, rfl, rfl, fun p hp => by simp at hp⟩
+    | noPool => exact ⟨h, rfl, rfl, rfl, fun p hp => by simp at hp⟩
+  obtain ⟨ho1, e1, oc1, _⟩ := pollWaiter_inv ho r c hco
+  unfold pollCheckout
+  generalize pollWaiter s r c = pw at hw ho1 e1 oc1
+  obtain ⟨s1, cw, w⟩ := pw
+  obtain ⟨h1, c1, cn1, in1, free1⟩ := hw
+  simp only [] at h1 c1 cn1 in1 free1 ho1 e1 oc1 ⊢
+  have hco1 : s1.co r = some c := by rw [c1]; exact hco
+  -- writing back a checkout that holds what `c` held, or nothing
+  have commit : ∀ (s2 : State) (c' : Checkout), LinInv s2 → s2.co r = some c → (∀ cid, c'.conn = some cid → c.conn = some cid) →
+      LinInv { s2 with co := upd s2.co r (some c') } :=
+    fun s2 c' h2 hc2 hcc => h2.sub_eq (Sub.commit hc2 hcc) rfl
+  cases w with
+  | none => exact ⟨commit s1 cw h1 hco1 (fun cid hc => by rw [cn1] at hc; exact hc), fun p hp => by cases hp⟩
+  | some w' =>
+    cases w' with
+    | some p =>
+      refine ⟨commit s1 cw h1 hco1 (fun cid hc => by rw [cn1] at hc; exact hc), ?_⟩
+      intro p' hp'
+      simp only [PollRes.got.injEq] at hp'
+      subst hp'
+      obtain ⟨f, ex⟩ := free1 p rfl
+      exact ⟨f.congr rfl (Sub.commit hco1 (fun cid hc => by rw [cn1] at hc; exact hc)), ex⟩
+    | none =>
+      simp only []
+      cases hin : cw.inner with
+      | waiting => exact ⟨commit s1 cw h1 hco1 (fun cid hc => by rw [cn1] at hc; exact hc), fun p hp => by cases hp⟩
+      | connected =>
+        simp only []
+        cases hcn : cw.conn with
+        | none =>
+          simp only []
+          exact ⟨commit s1 cw h1 hco1 (fun cid hc => by rw [hcn] at hc; cases hc), fun p hp => by cases hp⟩
+        | some cid =>
+          simp only []
+          have h2 := dropRx_lininv h1 r
+          have hco2 : (dropRx s1 r).co r = some c := by rw [dropRx_co]; exact hco1
+          have hcid : c.conn = some cid := by rw [← cn1]; exact hcn
+          have hsub : ∀ c' : Checkout, c'.conn = none → Sub { (dropRx s1 r) with co := upd (dropRx s1 r).co r (some c') } (dropRx s1 r) :=
+            fun c' hc' => Sub.commit hco2 (fun x hx => by rw [hc'] at hx; cases hx)
+          refine ⟨h2.sub_eq (hsub _ rfl) rfl, ?_⟩
+          intro p hp
+          simp only [PollRes.got.injEq] at hp
+          subst hp
+          have hpc : ∀ c'' : Checkout, (checkedOut (dropRx s1 r) c'' cid).conn = cid := fun c'' => (checkedOut_spec _ c'' cid).1
+          rw [hpc]
+          refine ⟨?_, h2.live cid (Or.inr ⟨.co r, c, hco2, hcid⟩)⟩
+          intro hn
+          apply h2.lin.nowhere_of_removed (hsub _ rfl) (l := .co r) hn ⟨c, hco2, hcid⟩
+          rintro ⟨chk, hchk, hcc⟩
+          simp only [upd_same, Option.some.injEq] at hchk
+          subst hchk
+          cases hcc
+      | connecting | delayDrop | delayed =>
+        simp only []
+        have hsd : Sub (startDial s1 r) s1 ∧ (startDial s1 r).conns = s1.conns := by
+          unfold startDial; split
+          · exact ⟨Sub.refl s1, rfl⟩
+          · exact ⟨Sub.of_eq rfl rfl rfl rfl rfl rfl, rfl⟩
+        have h2 := h1.sub_eq hsd.1 hsd.2
+        have hco2 : (startDial s1 r).co r = some c := by rw [startDial_co]; exact hco1
+        cases hout : (s1.dial r).outcome with
+        | none => exact ⟨commit _ cw h2 hco2 (fun cid hc => by rw [cn1] at hc; exact hc), fun p hp => by cases hp⟩
+        | some out =>
+          simp only []
+          have h3 := dropRx_lininv h2 r
+          have hco3 : (dropRx (startDial s1 r) r).co r = some c := by rw [dropRx_co]; exact hco2
+          have ho3 : OriginInv (dropRx (startDial s1 r) r) := dropRx_inv (startDial_inv ho1 r) r
+          cases out with
+          | failConnect => exact ⟨commit _ _ h3 hco3 (fun cid hc => by rw [cn1] at hc; exact hc), fun p hp => by cases hp⟩
+          | failHandshake => exact ⟨commit _ _ h3 hco3 (fun cid hc => by rw [cn1] at hc; exact hc), fun p hp => by cases hp⟩
+          | ok alpn =>
+            simp only []
+            generalize hs3 : dropRx (startDial s1 r) r = s3 at h3 hco3 ho3
+            have hfresh : s3.conns s3.nextConn = none := by
+              cases hc : s3.conns s3.nextConn with
+              | none => rfl
+              | some conn => exact absurd (ho3.fresh _ conn hc) (Nat.lt_irrefl _)
+            have hnw : Nowhere s3 s3.nextConn := h3.live.nowhere hfresh
+            obtain ⟨cv1, cv2, cv3⟩ := newConn_conns s3 { cw with inner := .connected, waiter := .noPool } alpn
+            have hs4 := newConn_sub s3 { cw with inner := .connected, waiter := .noPool } alpn hfresh
+            have hco4 : (newConn s3 { cw with inner := .connected, waiter := .noPool } alpn).1.co r = some c := hco3
+            generalize newConn s3 { cw with inner := .connected, waiter := .noPool } alpn = nc at cv1 cv2 cv3 hs4 hco4
+            obtain ⟨s4, cid⟩ := nc
+            simp only [] at cv1 cv2 cv3 hs4 hco4 ⊢
+            have h4 : LinInv s4 := h3.sub hs4 cv1
+            have hf4 : Free s4 cid := fun _ => by rw [cv3]; exact hnw.sub hs4
+            obtain ⟨l5, b5, c5, same5⟩ := registerConnected_linear h4.lin { cw with inner := .connected, waiter := .noPool } cid hf4
+            have pc5 : (registerConnected s4 { cw with inner := .connected, waiter := .noPool } cid).2.conn = cid := by
+              unfold registerConnected; split <;> rfl
+            have co5 : (registerConnected s4 { cw with inner := .connected, waiter := .noPool } cid).1.co r = some c := by
+              have : (registerConnected s4 { cw with inner := .connected, waiter := .noPool } cid).1.co = s4.co := by
+                unfold registerConnected
+                split
+                · exact push_co _ _ _
+                · rfl
+              rw [this]; exact hco4
+            generalize registerConnected s4 { cw with inner := .connected, waiter := .noPool } cid = rc at l5 b5 c5 same5 pc5 co5
+            obtain ⟨s5, p⟩ := rc
+            simp only [] at l5 b5 c5 same5 pc5 co5 ⊢
+            have ex5 : (s5.conns cid).isSome = true := by rw [c5]; exact cv2
+            have h5 : LinInv s5 := ⟨l5, h4.live.conserve b5 (fun x hx => by rw [c5]; exact hx) (fun x hx => by rw [hx]; exact ex5)⟩
+            have hcc : ∀ x, ({ cw with inner := .connected, waiter := .noPool } : Checkout).conn = some x → c.conn = some x :=
+              fun x hx => by rw [← cn1]; exact hx
+            have hsub := Sub.commit (c' := { cw with inner := .connected, waiter := .noPool }) co5 hcc
+            refine ⟨h5.sub_eq hsub rfl, ?_⟩
+            intro p' hp'
+            simp only [PollRes.got.injEq] at hp'
+            subst hp'
+            rw [pc5]
+            refine ⟨?_, ex5⟩
+            intro hn
+            have hn4 : NS s4 cid := by
+              have : NS s5 cid := hn
+              unfold NS canShare at this ⊢; rw [← c5]; exact this
+            have e45 : s5 = s4 := same5 hn4
+            subst e45
+            exact (hf4 hn4).sub hsub
+
+end Hd.Pool
+
+namespace Hd.Pool
+
+theorem taskOf_mem_id {s : State} {i : Nat} {t : Task} (h : taskOf s i = some t) : (i, t) ∈ s.tasks := by
+  unfold taskOf at h
+  cases hf : s.tasks.find? (·.1 == i) with
+  | none => simp [hf] at h
+  | some x =>
+    simp only [hf, Option.map_some, Option.some.injEq] at h
+    have hm := List.mem_of_find?_eq_some hf
+    have hp := List.find?_some hf
+    simp only [beq_iff_eq] at hp
+    obtain ⟨a, b⟩ := x
+    simp only [] at h hp
+    subst h; subst hp
+    exact hm
+
+theorem runWhenReady_lininv {s : State} (h : LinInv s) (i : Nat) (c : ConnId) (t : Token) (hp : Bool)
+    (hm : (i, Task.whenReady c t hp) ∈ s.tasks) : LinInv (runWhenReady s i c t hp) := by
+  have hs := removeTask_sub s i
+  have h1 : LinInv (removeTask s i) := h.sub_eq hs rfl
+  have hex : (s.conns c).isSome = true := h.live c (Or.inr ⟨.task i, t, hp, hm⟩)
+  have hf : Free (removeTask s i) c := by
+    intro hn
+    apply h.lin.nowhere_of_removed hs (l := .task i) hn ⟨t, hp, hm⟩
+    rintro ⟨t', hp', hm'⟩
+    unfold removeTask at hm'
+    have := (List.mem_filter.mp hm').2
+    simp at this
+  unfold runWhenReady
+  split
+  · exact h1
+  · split
+    · exact h1.sub_eq (Sub.of_eq rfl rfl rfl rfl rfl rfl) rfl
+    · split
+      · exact h
+      · simp only []
+        split
+        · obtain ⟨a, b, d⟩ := push_linear h1.lin t c hf
+          exact ⟨a, h1.live.conserve_eq b d (fun x hx => by rw [hx]; exact hex)⟩
+        · exact h1.sub_eq (Sub.of_eq rfl rfl rfl rfl rfl rfl) rfl
+
+theorem dropPooled_lininv {s : State} (h : LinInv s) (p : Pooled) (hf : Free s p.conn) (hex : (s.conns p.conn).isSome = true) :
+    LinInv (dropPooled s p) := by
+  obtain ⟨a, b, c⟩ := dropPooled_linear h.lin p hf
+  exact ⟨a, h.live.conserve_eq b c (fun x hx => by rw [hx]; exact hex)⟩
+
+theorem dropCheckout_lininv {s : State} (h : LinInv s) (r : ReqId) : LinInv (dropCheckout s r) := by
+  obtain ⟨a, b, c⟩ := dropCheckout_linear h.lin r
+  exact ⟨a, h.live.conserve_eq b c (fun _ f => f.elim)⟩
+
+theorem runDelayed_lininv {s : State} (h : LinInv s) (ho : OriginInv s) (i : Nat) (r : ReqId) : LinInv (runDelayed s i r) := by
+  unfold runDelayed
+  cases hco : s.co r with
+  | none => exact h.sub_eq (removeTask_sub s i) rfl
+  | some c =>
+    simp only []
+    obtain ⟨h2, free2⟩ := pollCheckout_linear h ho r c hco
+    generalize pollCheckout s r c = res at h2 free2
+    obtain ⟨s1, c', pr⟩ := res
+    simp only [] at h2 free2 ⊢
+    -- the tail: task removed, marker cancelled if owned, marker flag cleared
+    have tail : ∀ (s2 : State), LinInv s2 → s2.co r = some c' →
+        LinInv { (cancelIfOwner (removeTask s2 i) c') with
+                 co := upd (cancelIfOwner (removeTask s2 i) c').co r (some { c' with marker := false }) } ∧
+        Sub { (cancelIfOwner (removeTask s2 i) c') with
+                 co := upd (cancelIfOwner (removeTask s2 i) c').co r (some { c' with marker := false }) } s2 := by
+      intro s2 hl2 hr2
+      have hs3 := removeTask_sub s2 i
+      obtain ⟨hs4, c4⟩ := cancelIfOwner_sub (removeTask s2 i) c'
+      have hr4 : (cancelIfOwner (removeTask s2 i) c').co r = some c' := by
+        have : (cancelIfOwner (removeTask s2 i) c').co = (removeTask s2 i).co := by
+          unfold cancelIfOwner; split
+          · unfold cancelConnection; split
+            · simp only []
+              have : ∀ (l : List ReqId) (x : State), (dropSenders x l).co = x.co := by
+                intro l; induction l with
+                | nil => intro x; rfl
+                | cons a l ih => intro x; simp only [dropSenders]; rw [ih]; split <;> rfl
+              rw [this]
+            · rfl
+          · rfl
+        rw [this]; exact hr2
+      have hs5 : Sub { (cancelIfOwner (removeTask s2 i) c') with
+                 co := upd (cancelIfOwner (removeTask s2 i) c').co r (some { c' with marker := false }) }
+                 (cancelIfOwner (removeTask s2 i) c') := Sub.commit (c' := { c' with marker := false }) hr4 (fun x hx => hx)
+      have hall := (hs5.trans hs4).trans hs3
+      exact ⟨hl2.sub_eq hall (by show (cancelIfOwner (removeTask s2 i) c').conns = s2.conns; rw [c4]; rfl), hall⟩
+    have hr2 : ({ s1 with co := upd s1.co r (some c') } : State).co r = some c' := by simp
+    obtain ⟨h5, hs5⟩ := tail _ h2 hr2
+    cases pr with
+    | pending => exact h2
+    | got p =>
+      simp only []
+      obtain ⟨f, ex⟩ := free2 p rfl
+      refine dropPooled_lininv h5 p (fun hn => ?_) ?_
+      · have hn2 : NS { s1 with co := upd s1.co r (some c') } p.conn := hs5.ns _ hn
+        exact (f hn2).sub hs5
+      · have : ({ (cancelIfOwner (removeTask { s1 with co := upd s1.co r (some c') } i) c') with
+                 co := upd (cancelIfOwner (removeTask { s1 with co := upd s1.co r (some c') } i) c').co r (some { c' with marker := false }) } : State).conns
+            = s1.conns := by
+          show (cancelIfOwner (removeTask { s1 with co := upd s1.co r (some c') } i) c').conns = s1.conns
+          rw [(cancelIfOwner_sub _ _).2]; rfl
+        rw [this]; exact ex
+    | err k => exact h5
+    | panic => exact h5
+
+theorem runTask_lininv {s : State} (h : LinInv s) (ho : OriginInv s) (i : Nat) : LinInv (runTask s i) := by
+  unfold runTask
+  cases ht : taskOf s i with
+  | none => exact h
+  | some t =>
+    cases t with
+    | whenReady c tk hp => exact runWhenReady_lininv h i c tk hp (taskOf_mem_id ht)
+    | delayed r => exact runDelayed_lininv h ho i r
+
+theorem runAll_lininv : ∀ (fuel : Nat) (s : State), LinInv s → OriginInv s → LinInv (runAll fuel s)
+  | 0, _, h, _ => h
+  | fuel + 1, s, h, ho => by
+    simp only [runAll]
+    split
+    · exact h
+    · rename_i i q hq
+      have hq' : LinInv { s with runq := q } := h.sub_eq (Sub.of_eq rfl rfl rfl rfl rfl rfl) rfl
+      have hoq : OriginInv { s with runq := q } := ho.congr rfl rfl rfl rfl rfl rfl rfl rfl rfl rfl
+      exact runAll_lininv fuel _ (runTask_lininv hq' hoq i) (runTask_inv hoq i)
+
+end Hd.Pool
+
+namespace Hd.Pool
+
+theorem step_lininv (s : State) (op : Op) (h : LinInv s) (ho : OriginInv s) : LinInv (step s op).1 := by
+  cases op with
+  | issue r k mux =>
+    simp only [step]
+    cases hco : s.co r with
+    | some _ => exact h
+    | none =>
+      simp only []
+      refine ⟨issue_linear h.lin r k mux hco, ?_⟩
+      -- nothing new is located: `issue` only moves handles from the idle list to the checkout
+      have hconns : (issue s r k mux).conns = s.conns := by
+        unfold issue; simp only []
+        have : (tokenOf s k).1.conns = s.conns := (tokenOf_sub s k).2.1
+        split
+        · unfold issueFound; simp only []; split <;> exact this
+        · unfold issueMissing; simp only []; split
+          · exact this
+          · split <;> exact this
+      intro x hx
+      rw [hconns]
+      -- located after ⇒ located before: by cases on where it is
+      have hex := (issue_inv ho r k mux hco)
+      rcases hx with ⟨t, ht⟩ | ⟨l, hl⟩
+      · have : ∃ a, (x, a) ∈ (issue s r k mux).idle t := by
+          unfold idleCount at ht
+          have := List.count_pos_iff.mp ht
+          simp only [List.mem_map] at this
+          obtain ⟨⟨x', a⟩, hm, rfl⟩ := this
+          exact ⟨a, hm⟩
+        obtain ⟨a, ha⟩ := this
+        obtain ⟨k', conn, _, hc, _⟩ := hex.idle t x a ha
+        rw [← hconns, hc]; rfl
+      · cases l with
+        | chan r' =>
+          obtain ⟨p, hp, rfl⟩ := hl
+          obtain ⟨chk, _, ⟨k', conn, _, hc, _⟩, _⟩ := hex.chan r' p hp
+          rw [← hconns, hc]; rfl
+        | co r' =>
+          obtain ⟨chk, hchk, hcc⟩ := hl
+          obtain ⟨k', conn, _, hc, _⟩ := hex.co.2 r' chk x hchk hcc
+          rw [← hconns, hc]; rfl
+        | held r' =>
+          obtain ⟨p, hp, rfl⟩ := hl
+          obtain ⟨chk, _, ⟨k', conn, _, hc, _⟩, _⟩ := hex.held r' p hp
+          rw [← hconns, hc]; rfl
+        | task i =>
+          obtain ⟨t, hp, hm⟩ := hl
+          -- tasks are untouched by `issue`
+          have htasks : (issue s r k mux).tasks = s.tasks := by
+            unfold issue; simp only []
+            have : (tokenOf s k).1.tasks = s.tasks := by unfold tokenOf; split <;> rfl
+            split
+            · unfold issueFound; simp only []; split <;> exact this
+            · unfold issueMissing; simp only []; split
+              · exact this
+              · split <;> exact this
+          rw [htasks] at hm
+          exact h.live x (Or.inr ⟨.task i, t, hp, hm⟩)
+  | poll r =>
+    simp only [step]
+    cases hco : s.co r with
+    | none => exact h
+    | some c =>
+      simp only []
+      split
+      · exact h
+      · obtain ⟨h2, free2⟩ := pollCheckout_linear h ho r c hco
+        generalize pollCheckout s r c = res at h2 free2
+        obtain ⟨s1, c', pr⟩ := res
+        simp only [] at h2 free2 ⊢
+        cases pr with
+        | pending => exact h2
+        | err k => exact dropCheckout_lininv h2 r
+        | panic => exact dropCheckout_lininv h2 r
+        | got p =>
+          simp only []
+          obtain ⟨f, ex⟩ := free2 p rfl
+          have ha : AddAt { s1 with co := upd s1.co r (some c'), held := upd s1.held r (some p) }
+              { s1 with co := upd s1.co r (some c') } p.conn (.held r) := AddAt.held r p rfl rfl rfl rfl rfl rfl
+          have h3 : LinInv { s1 with co := upd s1.co r (some c'), held := upd s1.held r (some p) } :=
+            ⟨h2.lin.addAt ha f, h2.live.conserve_eq ha.conserve rfl (fun x hx => by rw [hx]; exact ex)⟩
+          have h4 : LinInv (if canShare { s1 with co := upd s1.co r (some c'), held := upd s1.held r (some p) } p.conn
+              then { s1 with co := upd s1.co r (some c'), held := upd s1.held r (some p) }
+              else setConn { s1 with co := upd s1.co r (some c'), held := upd s1.held r (some p) } p.conn (fun k => { k with busy := true })) := by
+            split
+            · exact h3
+            · obtain ⟨a, b⟩ := setConn_sub { s1 with co := upd s1.co r (some c'), held := upd s1.held r (some p) } p.conn
+                (fun k => { k with busy := true }) (fun _ => rfl)
+              exact h3.sub a b
+          exact dropCheckout_lininv h4 r
+  | cancel r =>
+    simp only [step]
+    cases hh : s.held r with
+    | some p =>
+      simp only []
+      have hs : Sub { s with held := upd s.held r none } s := by
+        refine Sub.of_fields rfl (fun _ _ h => h) (fun _ chk _ h hc => ⟨chk, h, hc⟩) ?_ (fun _ _ _ _ h => h) (fun _ _ => Nat.le_refl _)
+        intro r' p' hp'
+        by_cases e : r' = r
+        · subst e; simp at hp'
+        · simpa [upd, e] using hp'
+      refine dropPooled_lininv (h.sub_eq hs rfl) p ?_ (h.live p.conn (Or.inr ⟨.held r, p, hh, rfl⟩))
+      intro hn
+      apply h.lin.nowhere_of_removed hs (l := .held r) hn ⟨p, hh, rfl⟩
+      rintro ⟨p', hp', _⟩
+      simp at hp'
+    | none =>
+      simp only []
+      cases hco : s.co r with
+      | none => exact h
+      | some c =>
+        simp only []
+        split
+        · exact dropCheckout_lininv h r
+        · exact h
+  | dialDone r o =>
+    simp only [step]
+    split
+    · exact h.sub_eq (Sub.of_eq rfl rfl rfl rfl rfl rfl) rfl
+    · exact h
+  | finish r =>
+    simp only [step]
+    cases hh : s.held r with
+    | some p =>
+      simp only []
+      have hs : Sub { s with held := upd s.held r none } s := by
+        refine Sub.of_fields rfl (fun _ _ h => h) (fun _ chk _ h hc => ⟨chk, h, hc⟩) ?_ (fun _ _ _ _ h => h) (fun _ _ => Nat.le_refl _)
+        intro r' p' hp'
+        by_cases e : r' = r
+        · subst e; simp at hp'
+        · simpa [upd, e] using hp'
+      refine dropPooled_lininv (h.sub_eq hs rfl) p ?_ (h.live p.conn (Or.inr ⟨.held r, p, hh, rfl⟩))
+      intro hn
+      apply h.lin.nowhere_of_removed hs (l := .held r) hn ⟨p, hh, rfl⟩
+      rintro ⟨p', hp', _⟩
+      simp at hp'
+    | none => exact h
+  | connReady c =>
+    simp only [step]
+    split
+    · obtain ⟨a, b⟩ := setConn_sub s c (fun k => { k with busy := false }) (fun _ => rfl)
+      exact (h.sub a b).sub_eq (Sub.of_eq rfl rfl rfl rfl rfl rfl) rfl
+    · exact h
+  | connClose c =>
+    simp only [step]
+    split
+    · obtain ⟨a, b⟩ := setConn_sub s c (fun k => { k with isOpen := false }) (fun _ => rfl)
+      exact (h.sub a b).sub_eq (Sub.of_eq rfl rfl rfl rfl rfl rfl) rfl
+    · exact h
+  | run => exact runAll_lininv _ s h ho
+  | tick ms => exact h.sub_eq (Sub.of_eq rfl rfl rfl rfl rfl rfl) rfl
+  | mark => exact h
+
+theorem run_lininv : ∀ (ops : List Op) (s : State), LinInv s → OriginInv s → LinInv (run s ops).1
+  | [], _, h, _ => h
+  | op :: ops, s, h, ho => by
+    simp only [run]
+    exact run_lininv ops _ (step_lininv s op h ho) (step_originInv s op ho)
+
+theorem lininv_init (cfg : Config) : LinInv (init cfg) := ⟨linear_init cfg, live_init cfg⟩
 
 end Hd.Pool
